@@ -512,7 +512,27 @@ func resetState() error {
 	return nil
 }
 
+// run judges one case.  Two kinds of failure are not verdicts about regatta: a server process that was killed from outside (SIGKILL -
+// nothing a request can make a process do to itself) and a harness-side deadline that expired while re-reading a table (wall clock).
 func run(c Case, o *vt.Obs) *vt.Failure {
+	f := runInner(c, o)
+	if f == nil {
+		return nil
+	}
+	for _, p := range []*binfx.Proc{leader, follower} {
+		if p != nil && p.KilledFromOutside() {
+			vt.Inconclusive(fmt.Sprintf("C16 the %s process was killed from outside (SIGKILL): %s", p.Role, f.Signature))
+			return nil
+		}
+	}
+	if strings.HasSuffix(f.Signature, "/table-unreadable") && strings.Contains(f.Msg, "DeadlineExceeded") && leader.Alive() && follower.Alive() {
+		vt.Inconclusive("C16 re-reading a table ran into the harness deadline: " + f.Msg)
+		return nil
+	}
+	return f
+}
+
+func runInner(c Case, o *vt.Obs) *vt.Failure {
 	if err := fixture(); err != nil {
 		vt.Inconclusive("C16 fixture: " + err.Error())
 		return nil
